@@ -497,7 +497,11 @@ def soak(ctx):
     return p.out()
 
 
-EXTRA_CALLS = []      # [(qualified name, [parameter names])]: public functions the catalogue does not know (set by the adapter)
+_KNOWN_NAMES = {'points', 'pt', 'pts', 'p', 'curve', 'trace', 'data', 'x', 'y', 'y_hat', 'yhat', 'gradient', 'array', 'values', 'knees', 'kn',
+                'ks', 'knee_idx', 'indexes', 'indices', 'idx', 'candidates', 'reduced', 'expected', 'a', 'b', 'start', 'end', 'f', 'g',
+                'h', 'point', 'coef', 'cost', 'clustering', 't', 't1', 'tx', 'ty', 'eps', 'dx', 'dy', 'dz', 'threshold', 'tau',
+                'sensitivity', 't2', 'length', 'min_points', 'limit', 'index', 'left', 'right', 'i', 'k'}
+EXTRA_CALLS = []      # [(qualified name, [(parameter name, has default, annotation text)])]: public functions the catalogue does not know (set by the adapter)
 
 
 def byname_args(ctx, ci, params):
@@ -509,14 +513,40 @@ def byname_args(ctx, ci, params):
     idxs = ctx.of_kind('idx', ci)
     ex = ctx.of_kind('expected', ci)
     args = []
-    for name, has_default in params:
-        if name in ('points', 'pt', 'p', 'curve', 'trace', 'data'):
+    n2d = 0
+    for prm in params:
+        name, has_default = prm[0], prm[1]
+        ann = prm[2] if len(prm) > 2 else ''
+        if name not in _KNOWN_NAMES and not has_default and ann:
+            # unknown name: go by the annotation (first 2-D looking ndarray is the curve, later ones index sets)
+            if 'ndarray' in ann or 'array' in ann.lower():
+                n2d += 1
+                if n2d == 1:
+                    args.append(pts)
+                elif idxs:
+                    args.append(P(rng.choice(idxs)))
+                else:
+                    return None
+                continue
+            if 'float' in ann:
+                args.append(F(rng.choice([0.05, 0.1, 0.5])))
+                continue
+            if 'int' in ann:
+                args.append(rng.randint(1, max(1, min(n - 2, 5))))
+                continue
+            if 'bool' in ann:
+                args.append(rng.random() < 0.5)
+                continue
+            if 'list' in ann.lower() and idxs:
+                args.append(P(rng.choice(idxs)))
+                continue
+        if name in ('points', 'pt', 'pts', 'p', 'curve', 'trace', 'data'):
             args.append(pts)
         elif name == 'x':
             args.append(COL(pts, 0))
         elif name in ('y', 'y_hat', 'yhat', 'gradient', 'array', 'values'):
             args.append(COL(pts, 1))
-        elif name in ('knees', 'indexes', 'idx', 'candidates') and idxs:
+        elif name in ('knees', 'kn', 'ks', 'knee_idx', 'indexes', 'indices', 'idx', 'candidates') and idxs:
             args.append(P(rng.choice(idxs)))
         elif name == 'reduced':
             args.append({'concat': [0, n // 2, n - 1]})
